@@ -14,7 +14,8 @@ ID = 'C14'
 TITLE = 'The command line agrees with the library and honours its option spellings'
 LEVEL = 'exploration'
 TECHNIQUE = ('differential (command line vs library) and metamorphic (equivalent spellings, explicit type vs file name) '
-             'relations over Hypothesis-generated documents and option vectors, all run through main() in-process')
+             'relations over Hypothesis-generated documents (JSON family, XML, CSV) and option vectors (modes, --format, --html), all '
+             'run through main() in-process, with and without real output streams')
 RULE = ("Cases: a document pair, the types of the two files (json, json5, yaml; independently chosen, so the two files "
         "often have different types), option vector (dict strategy, list-edit mode, -j/-jl/-jd) and a misleading "
         "extension per file; modes full / -e / -d, optionally --format F; a fifth of the cases are CSV tables (cells with embedded LF, CRLF and lone CR, files with DOS or UNIX line ends); a quarter of the cases are XML documents (both files XML, attribute and element mutations) and a third to a half add --html. Relations, each comparing stdout bytes and return value: (a) command line == library "
